@@ -45,6 +45,7 @@ type Run struct {
 	violations   int
 	broken       int
 	knownDone    map[string]bool
+	violSeen     map[string]bool
 }
 
 type ObligationResult struct {
@@ -88,6 +89,7 @@ type HarnessResult struct {
 	GoModes        map[string]string  `json:"go_modes,omitempty"`
 	Nondets        int                `json:"nondet_inputs"`
 	Paths          int                `json:"paths"`
+	UnreachableCex int                `json:"counterexamples_from_unreachable_prestates"`
 	MaxTermNodes   int                `json:"-"`
 	ForcedBranches int                `json:"branches_with_one_feasible_side"`
 	PathEnds       map[string]int     `json:"path_ends,omitempty"`
@@ -260,6 +262,9 @@ func (r *Run) runHarness(ld *Loaded, fn *ssa.Function, src string) {
 		kept = append(kept, o)
 	}
 	hr.Results = kept
+	if len(hr.PathEnds) > 0 {
+		fmt.Printf("[%s] path ends: %v\n", fn.Name(), hr.PathEnds)
+	}
 	fmt.Printf("[%s] paths=%d obligations=%d discharged=%d nontrivial=%d violations=%d known=%d inconclusive=%d queries=%d solver=%.2fs (max %.2fs)\n",
 		fn.Name(), hr.Paths, hr.Obligations, hr.Discharged, hr.Nontrivial, hr.Violations, len(hr.KnownFindings), len(hr.Inconclusive),
 		solver.Queries, solver.TotalTime.Seconds(), solver.MaxTime.Seconds())
@@ -322,8 +327,8 @@ func (r *Run) processPath(ld *Loaded, fn *ssa.Function, d Directives, hr *Harnes
 
 	// ---- aborts: reachable unsupported/unwind sites make the run inconclusive
 	type agroup struct {
-		kind, site, msg string
-		cond            *Term
+		kind, site, msg, where string
+		cond                   *Term
 	}
 	groups := map[string]*agroup{}
 	var gorder []string
@@ -331,7 +336,7 @@ func (r *Run) processPath(ld *Loaded, fn *ssa.Function, d Directives, hr *Harnes
 		k := a.Kind + "|" + a.Site + "|" + a.Msg
 		g := groups[k]
 		if g == nil {
-			g = &agroup{a.Kind, a.Site, a.Msg, tFalse}
+			g = &agroup{a.Kind, a.Site, a.Msg, a.Where, tFalse}
 			groups[k] = g
 			gorder = append(gorder, k)
 		}
@@ -356,7 +361,22 @@ func (r *Run) processPath(ld *Loaded, fn *ssa.Function, d Directives, hr *Harnes
 		case g.kind == "panic" && d.Panics == "ignore":
 			hr.Notes = append(hr.Notes, note)
 		case g.kind == "panic" && d.Panics == "violation" && res == Sat:
-			r.handleCex(ld, fn, hr, in, Assertion{Name: "no-panic", Kind: "panic", Site: g.site}, model, g.msg, "")
+			// a listed finding? keys of the form "panic@<function>:<message part>"
+			kk := ""
+			for key, e := range r.Known {
+				if strings.HasPrefix(key, "panic@") && e.Status != "fixed" && strings.Contains(g.where+":"+g.msg, key[6:]) {
+					kk = key
+				}
+			}
+			if kk == "" || !r.knownDone[kk] {
+				ok := r.handleCex(ld, fn, hr, in, Assertion{Name: "no-panic@" + g.where, Kind: "panic", Site: g.site}, model, g.msg+" in "+g.where, kk)
+				if ok && kk != "" {
+					if r.knownDone == nil {
+						r.knownDone = map[string]bool{}
+					}
+					r.knownDone[kk] = true
+				}
+			}
 		case g.kind == "panic":
 			hr.Notes = append(hr.Notes, note+" (paths excluded)")
 			fmt.Printf("NOTE property=%s harness=%s %s\n", r.Prop, fn.Name(), note)
@@ -537,6 +557,17 @@ type cexVal struct {
 }
 
 func (r *Run) handleCex(ld *Loaded, fn *ssa.Function, hr *HarnessResult, in *Interp, a Assertion, model map[*Term]uint64, msg, knownKey string) (reproduced bool) {
+	vkey := fn.Name() + "|" + a.Name + "|" + knownKey
+	if r.violSeen == nil {
+		r.violSeen = map[string]bool{}
+	}
+	if r.violSeen[vkey] {
+		// the same assertion already produced a reproduced counterexample in this run
+		if knownKey == "" {
+			hr.Violations++
+		}
+		return true
+	}
 	cf := cexFile{Property: r.Prop, Harness: fn.Name(), Package: hr.Package, Assertion: a.Name, Kind: a.Kind, Site: a.Site, Msg: msg, Params: r.Params}
 	for _, n := range in.nondets {
 		if !n.Guard.IsTrue() && model[n.Guard] == 0 {
@@ -570,6 +601,9 @@ func (r *Run) handleCex(ld *Loaded, fn *ssa.Function, hr *HarnessResult, in *Int
 		hr.Samples = append(hr.Samples, sample)
 	}
 	reproduced = verdict == "REPRODUCED"
+	if reproduced {
+		r.violSeen[vkey] = true
+	}
 	switch {
 	case verdict == "REPRODUCED" && knownKey != "":
 		e := r.Known[knownKey]
@@ -589,6 +623,13 @@ func (r *Run) handleCex(ld *Loaded, fn *ssa.Function, hr *HarnessResult, in *Int
 		r.violations++
 		fmt.Printf("VIOLATION property=%s replay=%s\n", r.Prop, path)
 		fmt.Printf("  harness=%s assertion=%s site=%s %s inputs=%v\n", fn.Name(), a.Name, a.Site, msg, in.modelInputs(model, 40))
+	case verdict == "UNREACHABLE-PRESTATE":
+		// the inductive pre-state cannot be produced by any history of public mutations: the harness
+		// invariant is weaker than reachability there; not a counterexample to the property
+		hr.UnreachableCex++
+		if hr.UnreachableCex <= 3 {
+			hr.Notes = append(hr.Notes, fmt.Sprintf("counterexample for %s starts from an unreachable pre-state (no mutation history produces it); discarded; cex=%s", a.Name, path))
+		}
 	default:
 		note := fmt.Sprintf("counterexample for %s at %s did not reproduce natively (%s): encoding or stub mismatch; cex=%s", a.Name, a.Site, verdict, path)
 		hr.Inconclusive = append(hr.Inconclusive, note)
@@ -781,6 +822,9 @@ func (r *Run) replay(cexPath string, cf cexFile) string {
 func (r *Run) replayVerdict(out string, cf cexFile) string {
 	if strings.Contains(out, "VERIF-DESYNC") {
 		return "NOT-REPRODUCED(desync)"
+	}
+	if strings.Contains(out, "VERIF-LOG unreachable-prestate") {
+		return "UNREACHABLE-PRESTATE"
 	}
 	if strings.Contains(out, "VERIF-ASSUME-FALSE") {
 		return "NOT-REPRODUCED(assumption false natively)"
